@@ -102,9 +102,18 @@ func as(n int) string { return seqN(n, func(i int) string { return "a" + strconv
 func ms(n int) string { return seqN(n, func(i int) string { return "m" + strconv.Itoa(i) }, ", ") }
 
 type gen struct {
-	p  profile
-	sb strings.Builder
-	n  int
+	p   profile
+	sb  strings.Builder
+	n   int
+	log bool // C02 mode: callbacks log their invocations; library run and definition run must log identically
+}
+
+func nameID(name string) int {
+	h := 0
+	for _, c := range name {
+		h = h*31 + int(c)
+	}
+	return h%100000 + 1
 }
 
 func (g *gen) mdecl(n int) string {
@@ -113,11 +122,17 @@ func (g *gen) mdecl(n int) string {
 
 // pure UF function of n int args
 func (g *gen) fdecl(name string, n int) string {
+	if g.log {
+		return fmt.Sprintf("\t%s := func(%s int) int { vhLog(%d, %s); return zz.UFInt(%q, %s) }\n", name, as(n), nameID(name), as(n), name, as(n))
+	}
 	return fmt.Sprintf("\t%s := func(%s int) int { return zz.UFInt(%q, %s) }\n", name, as(n), name, as(n))
 }
 
 // UF Kleisli arrow of n int args
 func (g *gen) kdecl(name string, n int) string {
+	if g.log {
+		return fmt.Sprintf("\t%s := func(%s int) %s { vhLog(%d, %s); return vhRet(%q, %s) }\n", name, as(n), g.p.M("int"), nameID(name), as(n), name, as(n))
+	}
 	return fmt.Sprintf("\t%s := func(%s int) %s { return vhRet(%q, %s) }\n", name, as(n), g.p.M("int"), name, as(n))
 }
 
@@ -155,6 +170,14 @@ func curF(name string, n int) string {
 }
 
 func (g *gen) harness(name, body string) {
+	if g.log {
+		if !strings.Contains(body, "\tgot := ") || !strings.Contains(body, "\twant := ") || !strings.Contains(body, "vhLog(") {
+			return // nothing user-supplied is called: the value clause is C01's
+		}
+		body = strings.Replace(body, "\tgot := ", "\tvhCalls = nil\n\tgot := ", 1)
+		body = strings.Replace(body, "\twant := ", "\tlog1 := vhCalls\n\tvhCalls = nil\n\twant := ", 1)
+		body += "\tzz.Assert(vhLogEq(log1, vhCalls), \"" + name + ": user functions are invoked exactly as in the left-to-right definition (none after a failure, earlier ones once, same arguments)\")\n"
+	}
 	g.n++
 	g.sb.WriteString(fmt.Sprintf("func VH_%s_%s() {\n%s}\n\n", g.p.pkg, name, body))
 }
@@ -217,7 +240,7 @@ func (g *gen) emit(fi funcInfo, uncovered *[]string) {
 			fmt.Sprintf("\tgot := Ap(mf, m1)\n\twant := FlatMap(mf, func(h fp.Func1[int, int]) %s { return FlatMap(m1, func(a1 int) %s { return vhUnit(h(a1)) }) })\n", M("int"), M("int"))+eq("got", "want", "Ap"))
 	case name == "ApFunc" && fi.NParams == 2:
 		g.harness(name, g.mdecl(1)+g.fdecl("f", 1)+"\tmf := vhMkOf(\"mf\", fp.Func1[int, int](f))\n"+
-			fmt.Sprintf("\tgot := ApFunc(mf, func() %s { return m1 })\n\twant := FlatMap(mf, func(h fp.Func1[int, int]) %s { return FlatMap(m1, func(a1 int) %s { return vhUnit(h(a1)) }) })\n", M("int"), M("int"), M("int"))+eq("got", "want", "ApFunc"))
+			fmt.Sprintf("\tsup := func() %s { vhLog(7); return m1 }\n\tgot := ApFunc(mf, sup)\n\twant := FlatMap(mf, func(h fp.Func1[int, int]) %s { return FlatMap(sup(), func(a1 int) %s { return vhUnit(h(a1)) }) })\n", M("int"), M("int"), M("int"))+eq("got", "want", "ApFunc"))
 	case name == "Flap" && fi.NParams == 1:
 		g.harness(name, g.fdecl("f", 1)+"\tmf := vhMkOf(\"mf\", fp.Func1[int, int](f))\n\tb1 := zz.Int(\"b1\")\n"+
 			fmt.Sprintf("\tgot := Flap(mf)(b1)\n\twant := FlatMap(mf, func(h fp.Func1[int, int]) %s { return vhUnit(h(b1)) })\n", M("int"))+eq("got", "want", "Flap"))
@@ -365,6 +388,9 @@ func genMonadFamily(id string) genFn {
 	return func(tier, repo string) ([]File, error) {
 		var out []File
 		for _, p := range monadProfiles {
+			if id == "C02" && p.pkg == "statet" {
+				continue // StateT programs are lazy: call order across failure is checked in C17 at run time
+			}
 			fns, err := exportedFuncs(filepath.Join(repo, p.pkg))
 			if err != nil {
 				return nil, err
@@ -374,7 +400,7 @@ func genMonadFamily(id string) genFn {
 				names = append(names, n)
 			}
 			sort.Strings(names)
-			g := &gen{p: p}
+			g := &gen{p: p, log: id == "C02"}
 			var unc []string
 			for _, n := range names {
 				g.emit(fns[n], &unc)
@@ -389,4 +415,5 @@ func genMonadFamily(id string) genFn {
 
 func init() {
 	generators["C01"] = append(generators["C01"], genMonadFamily("C01"))
+	generators["C02"] = append(generators["C02"], genMonadFamily("C02"))
 }
